@@ -168,9 +168,11 @@ pub fn drive(cfg: &Cfg, d: &Drive) -> Report {
     }
     let total = cfg.budget(d.quick, d.thorough);
     let per = (total / cfg.threads as u64).max(1);
+    let from: u64 = cfg.opt("drive-from").and_then(|s| s.parse().ok()).unwrap_or(0);
     let mut rep = par(cfg.threads, |w| {
         let mut rep = Report::new();
-        for idx in 0..per {
+        for idx in from..per {
+            crate::progress(0, idx);
             one_case(d, cfg.seed, w as u64, idx, &mut rep);
         }
         rep
